@@ -1,11 +1,12 @@
 // C09 correspondence driver: untrusted input against every decoder / verifier entry point, with outcome classes
 // {ok, error, PANIC(recovered), TIMEOUT}.  A recovered panic or a timeout is directly a violation with the input.
-//   s : Decode / DecodeStrict of every generated struct (shared with C08's evaluator for model agreement) on
-//       exhaustive short byte strings, truncations of valid messages at every offset, corrupted length prefixes
-//       (past the buffer, 2^31, 2^63-1, 2^63, 2^64-1), over-long / non-canonical varints, random mutations
-//   v : verifier / constructor entry points: NewBlock, NewBlockHeader, NewTransaction(+Validate), NewBlockAsset,
-//       BLS aggregate verification with short / long bitmaps and garbage keys, certificate aggregate verification,
-//       smt.Verify and rmt.VerifyProof / CalculateRootFromAppendPath with malformed proofs (also decoded from bytes)
+//
+//	s : Decode / DecodeStrict of every generated struct (shared with C08's evaluator for model agreement) on
+//	    exhaustive short byte strings, truncations of valid messages at every offset, corrupted length prefixes
+//	    (past the buffer, 2^31, 2^63-1, 2^63, 2^64-1), over-long / non-canonical varints, random mutations
+//	v : verifier / constructor entry points: NewBlock, NewBlockHeader, NewTransaction(+Validate), NewBlockAsset,
+//	    BLS aggregate verification with short / long bitmaps and garbage keys, certificate aggregate verification,
+//	    smt.Verify and rmt.VerifyProof / CalculateRootFromAppendPath with malformed proofs (also decoded from bytes)
 package main
 
 import (
@@ -267,7 +268,7 @@ func genStructCases(o *hx.Out, rng *hx.Rng, exh, nvals, nmut int) {
 				o.Put(cxs.RunStruct(e, d[:k], "trunc"))
 			}
 			// (c) corrupted length prefixes / varints at every varint position reachable by a shallow scan
-			for _, m := range varintAttacks(d) {
+			for _, m := range cxs.VarintAttacks(d) {
 				o.Put(cxs.RunStruct(e, m, "varint"))
 			}
 			// (d) random mutations
@@ -276,69 +277,6 @@ func genStructCases(o *hx.Out, rng *hx.Rng, exh, nvals, nmut int) {
 			}
 		}
 	}
-}
-
-var evilVarints = [][]byte{
-	cx.Uvarint(1<<31 - 1), cx.Uvarint(1 << 31), cx.Uvarint(1<<32 + 5), cx.Uvarint(1<<63 - 1), cx.Uvarint(1 << 63), cx.Uvarint(1<<64 - 1),
-	{0xff, 0xff, 0xff, 0xff, 0xff, 0xff, 0xff, 0xff, 0xff, 0x02},
-	{0x80, 0x80, 0x80, 0x80, 0x80, 0x80, 0x80, 0x80, 0x80, 0x80, 0x80},
-	{0x80, 0x00},
-}
-
-// top-level scan of key/value pairs: replaces each length prefix / varint value by hostile ones, and the length by
-// len+1 / len+1000 (pointing past the field / the buffer)
-func varintAttacks(d []byte) [][]byte {
-	var out [][]byte
-	i := 0
-	count := 0
-	for i < len(d) && count < 6 {
-		_, ks := uvar(d[i:])
-		if ks <= 0 {
-			break
-		}
-		wt := d[i] & 7
-		vpos := i + ks
-		v, vs := uvar(d[vpos:])
-		if vs <= 0 {
-			break
-		}
-		repl := func(nv []byte) {
-			m := append(append(append([]byte{}, d[:vpos]...), nv...), d[vpos+vs:]...)
-			out = append(out, m)
-		}
-		for _, ev := range evilVarints {
-			repl(ev)
-		}
-		if wt == 2 {
-			repl(cx.Uvarint(v + 1))
-			repl(cx.Uvarint(v + 1000))
-			repl(cx.Uvarint(uint64(len(d))))
-			if v > 0 {
-				repl(cx.Uvarint(v - 1))
-			}
-			i = vpos + vs + int(v)
-		} else {
-			i = vpos + vs
-		}
-		count++
-	}
-	return out
-}
-
-func uvar(b []byte) (uint64, int) {
-	var x uint64
-	var s uint
-	for i, c := range b {
-		if i == 10 {
-			return 0, -1
-		}
-		if c < 0x80 {
-			return x | uint64(c)<<s, i + 1
-		}
-		x |= uint64(c&0x7f) << s
-		s += 7
-	}
-	return 0, 0
 }
 
 func genVerifierCases(o *hx.Out, rng *hx.Rng, n int) {
@@ -360,7 +298,7 @@ func genVerifierCases(o *hx.Out, rng *hx.Rng, n int) {
 			for k := 0; k < len(d) && k < 160; k++ {
 				put(pair[0], map[string]string{"d": hx2(d[:k])})
 			}
-			for _, m := range varintAttacks(d) {
+			for _, m := range cxs.VarintAttacks(d) {
 				put(pair[0], map[string]string{"d": hx2(m)})
 			}
 			for j := 0; j < 10; j++ {
